@@ -162,6 +162,8 @@ def cmd_check(a):
                              analysis_kind=[AnalysisKind.PEP316], report_all=True, report_verbose=False,
                              max_uninteresting_iterations=sys.maxsize)
     msgs = []
+    if os.environ.get("VF_DEBUG_OBS") == "1":
+        env.OBS_ON = True
     try:
         for m in run_checkables(analyze_function(o.fn, opts)):
             msgs.append(m)
@@ -170,6 +172,8 @@ def cmd_check(a):
         out.update(stats); _emit(out); return
     out.update(stats)
     out["solver_s"] = round(stats["solver_s"], 3)
+    if os.environ.get("VF_DEBUG_OBS") == "1":
+        sys.stderr.write("LAST OBS: %s\n" % _norm(repr(env.OBS[-6:]))[:6000])
     if not msgs:
         out["state"] = "NO_MESSAGE"
         _emit(out); return
